@@ -37,12 +37,14 @@ func leaf(v V) *enode { return &enode{kind: "leaf", val: v} }
 func (n *enode) render(next *int) string {
 	p := func(k *enode) string {
 		s := k.render(next)
-		if k.kind == "leaf" {
+		if k.kind == "leaf" || k.kind == "const" {
 			return s
 		}
 		return "(" + s + ")"
 	}
 	switch n.kind {
+	case "const":
+		return n.val.Lit() // a bare literal: a constant of the code object
 	case "leaf":
 		n.label = *next
 		*next++
@@ -150,6 +152,8 @@ type evalCtx struct {
 // eval is the reference evaluator: it appends the labels of the leaves it evaluates.
 func (n *enode) eval(c *evalCtx) (V, error) {
 	switch n.kind {
+	case "const":
+		return n.val, nil
 	case "leaf":
 		c.log = append(c.log, itoa(n.label))
 		return n.val, nil
@@ -923,6 +927,58 @@ func c01Run(rc *core.RunCtx) {
 						}
 					}
 				}
+			}
+		}
+	}
+	// (1e) conditions: chained comparisons under not / and / or in the test position of a
+	// conditional expression (compilers translate tests into jumps instead of values there)
+	rc.Part = "cond-tests"
+	for _, o1 := range []string{"<", "==", ">="} {
+		for _, o2 := range []string{"<", "!=", ">"} {
+			for a := 0; a < 3; a++ {
+				for b := 0; b < 3; b++ {
+					for d := 0; d < 3; d++ {
+						for l := 0; l < 2; l++ {
+							if rc.Expired() || rc.Done() {
+								return
+							}
+							chain := func() *enode {
+								return &enode{kind: "cmp", ops: []string{o1, o2}, kids: []*enode{leaf(vInt(int64(a))), leaf(vInt(int64(b))), leaf(vInt(int64(d)))}}
+							}
+							lf := func() *enode { return leaf(vInt(int64(l))) }
+							not := func(t *enode) *enode { return &enode{kind: "un", op: "not", kids: []*enode{t}} }
+							bop := func(op string, x, y *enode) *enode { return &enode{kind: "bool", op: op, kids: []*enode{x, y}} }
+							tests := []*enode{chain(), not(chain()), bop("or", chain(), lf()), bop("or", lf(), chain()), bop("and", chain(), lf()), bop("and", lf(), chain()),
+								not(bop("or", chain(), lf())), not(bop("and", chain(), lf())), bop("or", not(chain()), lf()), bop("and", not(chain()), lf()),
+								bop("or", chain(), chain()), not(not(chain()))}
+							for _, t := range tests {
+								c.checkExpr(&enode{kind: "ifexp", kids: []*enode{leaf(vInt(7)), t, leaf(vInt(8))}}, "cond-tests")
+							}
+						}
+					}
+				}
+			}
+		}
+	}
+	// (1f) bare literals as operands: values that are equal but not the same (1, 1.0, True;
+	// (1, 2), (1.0, 2.0); 0, 0.0, False, ...) side by side in one code object - each operand must
+	// come out with its own type, whatever the compiler does with its table of constants
+	rc.Part = "literal-operands"
+	{
+		lits := []V{vInt(1), vFloat(1.0), vBool(true), vInt(0), vFloat(0.0), vBool(false), vInt(2), vFloat(2.0), vStr("a"), vStr(""),
+			vTuple(), vTuple(vInt(1), vInt(2)), vTuple(vFloat(1.0), vFloat(2.0)), vTuple(vBool(true), vInt(2)), vTuple(vInt(0)), vTuple(vFloat(0.0)), vTuple(vBool(false)),
+			vTuple(vTuple(vInt(1)), vInt(0)), vTuple(vTuple(vFloat(1.0)), vBool(false))}
+		k := func(v V) *enode { return &enode{kind: "const", val: v} }
+		for _, x := range lits {
+			for _, y := range lits {
+				if rc.Expired() || rc.Done() {
+					return
+				}
+				c.checkExpr(&enode{kind: "tuple", kids: []*enode{k(x), k(y)}}, "literal-operands")
+				c.checkExpr(&enode{kind: "tuple", kids: []*enode{k(x), leaf(vInt(5)), k(y), k(x)}}, "literal-operands")
+				c.checkExpr(&enode{kind: "list", kids: []*enode{k(x), k(y), k(y)}}, "literal-operands")
+				c.checkExpr(&enode{kind: "ifexp", kids: []*enode{k(x), leaf(vInt(1)), k(y)}}, "literal-operands")
+				c.checkExpr(&enode{kind: "ifexp", kids: []*enode{k(x), leaf(vInt(0)), k(y)}}, "literal-operands")
 			}
 		}
 	}
